@@ -319,31 +319,43 @@ func prefixTests(p *load.Program, fn *ssa.Function) []prefixVerdict {
 			}
 			y := cl.Call.Args[1]
 			key := ord.next("HasPrefix")
+			// captured variables: look at what was bound / stored
+			if fv, ok := y.(*ssa.FreeVar); ok {
+				if b := ssax.ResolveFreeVar(fv); b != nil {
+					y = b
+				}
+			}
+			if u, ok := y.(*ssa.UnOp); ok {
+				var cell *ssa.Alloc
+				switch a := u.X.(type) {
+				case *ssa.Alloc:
+					cell = a
+				case *ssa.FreeVar:
+					if b, ok := ssax.ResolveFreeVar(a).(*ssa.Alloc); ok {
+						cell = b
+					}
+				}
+				if cell != nil {
+					stores, _ := ssax.CellStores(cell)
+					allOK := len(stores) > 0
+					for _, st := range stores {
+						if !endsInSlash(st.Val) {
+							allOK = false
+						}
+					}
+					msg := "every value of the captured prefix ends in \"/\" (or is empty for the root)"
+					if !allOK {
+						msg = fmt.Sprintf("%s: strings.HasPrefix(%s, <captured prefix>) — a value stored into the prefix does not end in \"/\": \"ab\" would match \"a\"", fname(f), vname(cl.Call.Args[0]))
+					}
+					out = append(out, prefixVerdict{key, p.Pos(cl.Pos()), msg, allOK})
+					return
+				}
+			}
 			if s, ok := ssax.ConstString(y); ok {
 				out = append(out, prefixVerdict{key, p.Pos(cl.Pos()), fmt.Sprintf("constant prefix %q", s), true})
 				return
 			}
-			good := false
-			if bo, ok := y.(*ssa.BinOp); ok && bo.Op == token.ADD {
-				if s, ok := ssax.ConstString(bo.Y); ok && strings.HasSuffix(s, "/") {
-					good = true
-				}
-			}
-			// prefix that is empty for the root case: phi("", x + "/")
-			if ph, ok := y.(*ssa.Phi); ok {
-				good = true
-				for _, e := range ph.Edges {
-					if s, ok := ssax.ConstString(e); ok && (s == "" || strings.HasSuffix(s, "/")) {
-						continue
-					}
-					if bo, ok := e.(*ssa.BinOp); ok && bo.Op == token.ADD {
-						if s, ok := ssax.ConstString(bo.Y); ok && strings.HasSuffix(s, "/") {
-							continue
-						}
-					}
-					good = false
-				}
-			}
+			good := endsInSlash(y)
 			msg := "prefix ends in \"/\": a path element boundary"
 			if !good {
 				msg = fmt.Sprintf("%s: strings.HasPrefix(%s, %s) tests a stored path as a plain string prefix without the trailing \"/\": \"ab\" would match the mount point/root \"a\"", fname(f), vname(cl.Call.Args[0]), vname(y))
@@ -356,4 +368,27 @@ func prefixTests(p *load.Program, fn *ssa.Function) []prefixVerdict {
 	}
 	visit(fn)
 	return out
+}
+
+// endsInSlash: v is x + "…/" , the empty constant, a constant ending in "/", or a phi of these.
+func endsInSlash(v ssa.Value) bool {
+	if s, ok := ssax.ConstString(v); ok {
+		return s == "" || strings.HasSuffix(s, "/")
+	}
+	switch x := v.(type) {
+	case *ssa.BinOp:
+		if x.Op == token.ADD {
+			if s, ok := ssax.ConstString(x.Y); ok && strings.HasSuffix(s, "/") {
+				return true
+			}
+		}
+	case *ssa.Phi:
+		for _, e := range x.Edges {
+			if !endsInSlash(e) {
+				return false
+			}
+		}
+		return true
+	}
+	return false
 }
